@@ -1,6 +1,7 @@
 package main
 
 import (
+	"encoding/json"
 	"fmt"
 	"os"
 	"strconv"
@@ -57,6 +58,34 @@ func main() {
 				break
 			}
 			fmt.Printf("  VIOLATION %s %s inputs=%s obs=%v\n", v.Label, v.Detail, renderInputs(v.Inputs), v.Observe)
+		}
+	case "replay":
+		data, err := os.ReadFile(os.Args[2])
+		if err != nil {
+			fmt.Println(err)
+			os.Exit(2)
+		}
+		var cases []ReplayCase
+		if err := json.Unmarshal(data, &cases); err != nil {
+			fmt.Println(err)
+			os.Exit(2)
+		}
+		nb := newNativeBuilder()
+		defer nb.Close()
+		res, err := nb.Replay(cases)
+		if err != nil {
+			fmt.Println(err)
+			os.Exit(2)
+		}
+		bad := false
+		for i, r := range res {
+			fmt.Printf("%s %s inputs=%s\n  failed=%v panic=%q observed=%v\n", cases[i].Harness, cases[i].Label, renderInputs(cases[i].Inputs), r.Failed, r.Panic, r.Observed)
+			if len(r.Failed) > 0 || r.Panic != "" {
+				bad = true
+			}
+		}
+		if bad {
+			os.Exit(1)
 		}
 	default:
 		os.Exit(runCheck(os.Args[1:]))
